@@ -12,6 +12,7 @@ mod runner;
 mod shim;
 mod sim;
 mod stream;
+mod tcpdiff;
 mod tlsfix;
 mod tlssim;
 
